@@ -388,6 +388,10 @@ func buildPool() {
 	marshal("marshal/struct/omitzero-stringify-html", "omitzero+stringify+html+nilnull", "", fixed(&item{ID: 3, Name: "<b>&\u2028", Tags: nil}),
 		json.OmitZeroStructFields(true), json.StringifyNumbers(true), jsontext.EscapeForHTML(true), jsontext.EscapeForJS(true), json.FormatNilSliceAsNull(true), json.FormatNilMapAsNull(true))
 	marshal("marshal/struct/v1", "v1-defaults", "", fixed(&item{ID: 3, Name: "<b>&", Bin: []byte{1, 2}}), jsonv1.DefaultOptionsV1())
+	marshal("marshal/escnames/default", "default", "", fixed(&escNames{1, 2, 3, 4, 5}))
+	marshal("marshal/escnames/js", "js", "", fixed(&escNames{1, 2, 3, 4, 5}), jsontext.EscapeForJS(true))
+	marshal("marshal/escnames/html", "html", "", fixed(&escNames{1, 2, 3, 4, 5}), jsontext.EscapeForHTML(true))
+	marshal("marshal/escnames/html+js", "html+js", "", fixed(&escNames{1, 2, 3, 4, 5}), jsontext.EscapeForHTML(true), jsontext.EscapeForJS(true))
 	marshal("marshal/any/deterministic", "deterministic", "", func(n int) any { return rebuildAny(valAnyMixed, n) }, json.Deterministic(true))
 	marshal("marshal/map-int/deterministic", "deterministic", "", func(n int) any {
 		m := map[int]string{}
